@@ -8,5 +8,6 @@ Lemma link_shift_structure :
   Gen.Shift.metric_weights_are_exp_of_logw_minus_max = true
   /\ Gen.Shift.metric_logw_from_compute_logw_and_logz = true
   /\ Gen.Shift.warmup_test_is_isinf_of_logl = true
-  /\ Gen.Shift.acceptance_factor_does_not_read_logl = true.
+  /\ Gen.Shift.acceptance_factor_does_not_read_logl = true
+  /\ Gen.Shift.final_evidence_recomputed_at_beta_one = true.
 Proof. repeat split. Qed.
